@@ -29,7 +29,7 @@ PROPS = {
     "C18": {
         "props_module": "LayerModel.Props.C18",
         "families": [("ante", 4000, 200000), ("track", 500, 20000)],
-        "gen": [],
+        "gen": ["facts", "formulas"],
         "rule": "a case is non-trivial when the transaction carries >= 2 staking messages and a tracker exists "
                 "(ante) / when the tracker is refreshed at least once (track); distinct = distinct canonical input lines",
         "level_text": "Theorems over all transactions (any number/mix/amount of staking messages) and all block-time sequences for the decorator's loop and the tracker refresh; the model is tied to the code by running the real decorator and the real TrackStakeChange on generated cases and diffing against the Lean driver; the theorem statement is evaluated as a monitor on the implementation's decisions.",
@@ -51,7 +51,7 @@ PROPS = {
     "C20": {
         "props_module": "LayerModel.Props.C20",
         "families": [("medianu", 4000, 200000), ("mediani", 4000, 200000), ("pcache", 3000, 100000), ("pconc", 8000, 200000)],
-        "gen": [],
+        "gen": ["facts", "formulas"],
         "rule": "median families: even-length inputs (the rounding/overflow branch); pcache: operation sequences in which at least one read served a price; pconc: concurrent histories in which a read overlaps an update in real time; distinct = distinct input lines",
         "extra": [race_pconc],
         "level_text": "Theorems: lib.Median on uint64 returns the middle element / the mean of the two middle elements rounded up for every non-empty list with every machine operation wrapped at 2^64 (so no overflow changes the result), the int64 branch arithmetic equals the mean rounded away from zero, the result is independent of collection order, a price is served iff the market is known and at least min (and at least one) exchanges are fresh, and it is the median of exactly the fresh prices; an exchange's stored price only moves forward in time. Tied to the real lib.Median and MarketToExchangePrices by differential op sequences; a history-level specification (latest update per exchange by time) runs as monitor on the implementation's reads.",
@@ -61,10 +61,19 @@ PROPS = {
     "C09": {
         "props_module": "LayerModel.Props.C09",
         "families": [("calc", 3000, 100000), ("alloc", 3000, 100000), ("divvy", 4000, 150000)],
-        "gen": [],
+        "gen": ["facts", "formulas"],
         "rule": "alloc: allocations with >= 2 reporters paid; divvy: reporter with 0 or >= 2 own token origins and non-zero commission rate inside [0,1]; calc: every case; distinct = distinct input lines",
         "level_text": "Theorems over all rewards, reporter sets, powers, commission rates and origin lists: AllocateRewards' amounts sum to the reward exactly; DivvyingTips credits = pro-rata shares of the net reward + the commission exactly once (one, several or no own origins); no credit is negative for rates in [0,1]; counterexample theorems for the recorded finding (rates outside [0,1] accepted at creation) and for the pre-fix double commission. LegacyDec is modelled exactly (banker's rounding) and differential-tested through CalculateRewardAmount; the real AllocateRewards (mock sinks) and DivvyingTips (real store) are run on generated cases and compared with the Lean driver; an exact-rational proportionality monitor runs on the implementation's outputs.",
         "level_note": "Trusted: Lean kernel; hand-written models Chain/Rewards.lean, Base/Dec.lean; the per-credit 10^-18 rounding bound is checked by the monitor on every generated case but not yet a theorem (partial); TBR selection in SetAggregatedReport is covered by the chain-mode properties (C03/C04), not here.",
         "trusted": ["models Chain/Rewards.lean, Base/Dec.lean written by hand", "mock reporter/bank keepers capture AllocateTip calls in the alloc family"],
+    },
+    "C01": {
+        "props_module": "LayerModel.Props.C01",
+        "families": [("mode", 4000, 150000), ("alloc", 3000, 100000)],
+        "gen": ["facts", "formulas"],
+        "rule": "mode: rounds in which two or more values tie for the maximal weight, each executed 24 times in one process (Go re-randomises map iteration per range); alloc: allocations with >= 2 reporters (map -> sorted slice); distinct = distinct input lines",
+        "level_text": "Theorems: every map-range loop and every wall-clock/goroutine/randomness use in the consensus packages is in a classified table that is regenerated from the source by a go/types-based extractor on every run (a new site breaks the rfl obligation); for each classified site the result is proved independent of iteration order (reward allocation: sorting erases the order; power difference: commutative sum; weighted mode: after the fix the scan runs over the reports and returns the first value of maximal weight; counterexample theorem for map-order iteration). Tie: repeated in-process execution of the real WeightedMode and AllocateRewards compared with the deterministic Lean model; (chain-level replay differential on two app instances is part of C02's chain profile).",
+        "level_note": "Trusted: Lean kernel; the extractor (extract/main.go) and its exclusion list (tests, *.pb.go, simulation, mocks, CLI); hand-written models. Partial: goroutine scheduling and wall-clock independence are shown only as 'no such construct on a consensus path' (fact table) plus replay evidence; the Go runtime itself is not modelled.",
+        "trusted": ["extract/main.go (go/packages) and its file exclusions", "models Chain/Aggregate.lean, Chain/Rewards.lean"],
     },
 }
